@@ -173,6 +173,9 @@ type USpec struct {
 	// PreOpts: options given before the ones derived from Fields ("exp:<n>", "noexp", "nbf:<n>",
 	// "nnc:<s>"): a later option replaces an earlier one
 	PreOpts []string `json:"preOpts,omitempty"`
+	// EmptyFacts / EmptyProofs: the option is given with an empty, non-nil list
+	EmptyFacts  bool `json:"emptyFacts,omitempty"`
+	EmptyProofs bool `json:"emptyProofs,omitempty"`
 }
 
 func preOpts(l []string) []delegation.Option {
